@@ -31,6 +31,10 @@ func VerifRun_C17j() {
 	a, b := root+"/a.lua", root+"/util.lua"
 	verifVFSPut(a, []byte("local u = 1\n"))
 	verifVFSPut(b, []byte("local w = 1\nlocal x = 2\n"))
+	// a file that only uses the standard library: clean under every configuration, at start-up as after a
+	// settings change (the server runs without the editor plug-in's library stubs, as the default options say)
+	lib := root + "/lib.lua"
+	verifVFSPut(lib, []byte("local t = math.floor(1.5)\nprint(t, string.format(\"x\"), os.time(), table.concat({}), unpack({1}), bit)\n"))
 	c08view = map[string]string{}
 	ctx := context.Background()
 	l := CreateLspServer()
@@ -57,10 +61,17 @@ func VerifRun_C17j() {
 	}
 	verifReach("configured")
 	ua, ub := "file://"+a, "file://"+b
+	if verifParam("CHANGES") == 0 {
+		on = true
+	}
 	check := func(na, nb int, when string) {
 		wa, wb := 0, 0
 		if on {
 			wa, wb = na, nb
+		}
+		if c08view["file://"+lib] != "" {
+			verifObserve("view", when+" [lib: "+c08view["file://"+lib]+"]")
+			verifViolation("", "a file that only uses the standard library shows diagnostics "+when)
 		}
 		if c17jCount(c08view[ua]) != wa || c17jCount(c08view[ub]) != wb {
 			verifObserve("view", when+" [a: "+c08view[ua]+"] [util: "+c08view[ub]+"]")
